@@ -243,10 +243,6 @@ fn known_diff(c: &DiffCase, msg: &str) -> Option<&'static str> {
     if text.contains("nodir/x") || (text.contains("f0/x") && text.contains("cd ")) {
         return Some("vfs-open-creates-missing-directories");
     }
-    // the simulated file system follows symbolic links only in fstatat (final component)
-    if uses_links(&text) {
-        return Some("vfs-symlink-not-followed");
-    }
     None
 }
 
